@@ -44,7 +44,7 @@ the change was caught without knowing the class in advance.
 rows = [l for l in table.splitlines() if l.startswith('| C')]
 def _b(l):
     k = l.split('|')[1].strip().split('/')[1]
-    return 3 if k == '6' else 2 if k in ('4', '5') else 1
+    return 4 if k == '7' else 3 if k == '6' else 2 if k in ('4', '5') else 1
 dg = lambda b: sum(1 for l in rows if _b(l) == b and ('**D**' in l or '**G**' in l))
 INTRO = INTRO.replace('@DG2@', str(dg(2))).replace('@DG1@', str(dg(1))).replace('@DG3@', str(dg(3)))
 p = os.path.join(HERE, 'DESIGN.md')
